@@ -25,6 +25,7 @@ def make_history(rng, maxsteps, single=False, sizes=(1, 2, 3, 4, 6, 8)):
             if r is None: break
             labels.append(r[0]); batch.append(r[1])
         if batch: steps.append(batch)
+        if not single and rng.random() < .04: steps.append([]); labels.append("empty_batch/no-change")        # a notification without content changes
     return text0, steps, labels, doc
 
 
